@@ -38,8 +38,6 @@ type Scenario struct {
 // Options bound the exploration.
 type Options struct {
 	PB, DB int // preemption / deviation bound
-	// FB bounds the non-default choices at points where the running thread cannot continue (0 = unbounded).
-	FB int
 	// FB bounds the number of non-default choices at points where the running thread cannot continue
 	// (it blocked or finished): which of the other runnable threads goes next. 0 = unbounded.
 	FB          int
